@@ -10,6 +10,15 @@ const VARIANTS = ['sloppy', 'strict', 'module']
 // file names rotate too: base name, extension and depth must not matter to anything but the map's `sources`
 const FILES = ['/app/src/prog.js', '/app/lib/mod.mjs', '/srv/x/index.cjs', '/a/b/c/d/e/f/deep.js', 'relative.js', '/app/ñ/файл.js', '/app/noext', '/app/src/prog.js']
 
+// line-ending styles of the file as a whole (Windows-authored and old Mac files are real-world inputs): every line break of the
+// program text, including those inside templates, comments and string line continuations, is spelled that way
+const EOLS = ['lf', 'crlf', 'cr']
+function withEol (code, eol) {
+  if (eol === 'crlf') return code.replace(/\r?\n/g, '\r\n')
+  if (eol === 'cr') return code.replace(/\r?\n/g, '\r')
+  return code
+}
+
 // returns shard specs (plain JSON)
 function plan (ctx, o) {
   const shards = []
@@ -30,7 +39,7 @@ function plan (ctx, o) {
   if (o.includeKnown !== false) for (const [pl, fm] of cat.knownPairs()) items.push({ p: pl.id, f: fm.id, variant: 'sloppy', cfg: fm.cfg || 'FULL', known: true })
   const per = o.catalogPerShard || 120
   for (const c of chunk(rng.shuffle(items), per)) shards.push({ kind: 'catalog', items: c })
-  if (o.zoo !== false) shards.push({ kind: 'zoo' })
+  if (o.zoo !== false) for (const eol of EOLS) shards.push({ kind: 'zoo', eol })
   const nRandom = ctx.tier === 'thorough' ? (o.thoroughRandom || 20000) : (o.quickRandom || 600)
   const perR = o.randomPerShard || 100
   for (let k = 0; k < Math.ceil(nRandom / perR); k++) shards.push({ kind: 'random', count: Math.min(perR, nRandom - k * perR), stream: k, cfgNames })
@@ -53,7 +62,9 @@ function jobs (spec, ctx) {
     zoo.ZOO.forEach((entry, i) => {
       for (const cfgName of ['FULL', 'COMMENTS', 'RENAMED']) {
         const prog = zoo.build(entry)
-        out.push({ code: prog.code, file: FILES[i % FILES.length], meta: prog.meta, config: SETS[cfgName], cfgKey: cfgName, cfgName })
+        const eol = spec.eol || 'lf'
+        if (eol !== 'lf') { prog.meta.eol = eol; prog.meta.sigBase += ':' + eol }
+        out.push({ code: withEol(prog.code, eol), file: FILES[i % FILES.length], meta: prog.meta, config: SETS[cfgName], cfgKey: cfgName, cfgName })
       }
     })
   } else if (spec.kind === 'random') {
@@ -73,4 +84,4 @@ function jobs (spec, ctx) {
   return out
 }
 
-module.exports = { plan, jobs, VARIANTS }
+module.exports = { plan, jobs, VARIANTS, withEol, EOLS }
